@@ -188,11 +188,11 @@ def check_vtk(case):
                                    subregions={"stale": df.Region(p1=mesh.region.pmin, p2=mesh.region.pmax)}), nvdim=1, value=1.0)
             old.to_file(path)
             tag("name-used-before")
-        f.to_file(path, representation=rep, save_subregions=case["save_subregions"])
+        f.to_file(gen.path_arg(path, case["seed"]), representation=rep, save_subregions=case["save_subregions"])
         g2 = vtk_read(path)
         check_grid(case, g2, f, arr, valid, lat, "file", rtol)
         try:
-            back = df.Field.from_file(path)
+            back = df.Field.from_file(gen.path_arg(path, case["seed"] + 1))
         except ValueError as e:
             if rep == "txt" and case["subs"] and case["save_subregions"] and "ubregion" in str(e):
                 raise Violation("txt-subregions-unreadable", str(e)[:200]) from None
